@@ -8,6 +8,10 @@ Poisson bracket is replaced by its ring summary (justified by C06.c).  Decided, 
  b  H_new == H_old o Phi up to degree N with Phi = the library's own forward coordinate series
  c  Phi is canonical to degree N ({Phi_i, Phi_j} = J_ij) and forward o inverse == identity to degree N
  d  generating functions returned are the ones applied; truncation counts K suffice (integer grid)
+
+b (added)  series weights: the k-th iterated bracket enters with 1/k! (formal blocks, N_max = 7), for the Hamiltonian and the coordinate series;
+           the coordinate series examined are the ones HamiltonianPipeline.get_lie_expansions requests (its own keyword arguments)
+d (added)  generating functions are stored under / read from the slot of their own transform (C18.b slot rule, re-filed)
 """
 from __future__ import annotations
 
